@@ -615,6 +615,45 @@ func runC20(r *evid.Run) {
 		rec(2)
 		n.Add(cnt)
 	})
+	// extreme lengths: every length-delimited field (and an unknown one), at top level, inside the nested stat and
+	// inside an xattr map entry, announced with lengths around 2^31, 2^32, 2^63 and 2^64 and with overlong varints
+	{
+		varint := func(v uint64) []byte {
+			var b []byte
+			for v >= 0x80 {
+				b = append(b, byte(v)|0x80)
+				v >>= 7
+			}
+			return append(b, byte(v))
+		}
+		var lens [][]byte
+		for _, base := range []uint64{1 << 31, 1 << 32, 1 << 62, 1 << 63, 0} { // 0 stands for 2^64 (wraps)
+			for d := uint64(0); d <= 48; d++ {
+				lens = append(lens, varint(base-d), varint(base+d))
+			}
+		}
+		lens = append(lens, bytes.Repeat([]byte{0xff}, 10), append(bytes.Repeat([]byte{0xff}, 9), 0x01), append(bytes.Repeat([]byte{0xff}, 9), 0x7f), append(bytes.Repeat([]byte{0x80}, 9), 0x01), bytes.Repeat([]byte{0xff}, 11))
+		wraps := [][2][]byte{{nil, nil}, {{0x08, 0x02}, nil}, {{0x08, 0x04, 0x18, 0x01}, nil}}
+		nests := [][]byte{nil, {0x12, 0x7f}, {0x12, 0x14, 0x52, 0x12}, {0x52, 0x10}}
+		tags := []byte{0x0a, 0x12, 0x1a, 0x22, 0x2a, 0x32, 0x3a, 0x52, 0x7a}
+		tails := [][]byte{nil, {0x00}, {0x61, 0x62, 0x63}, bytes.Repeat([]byte{0x41}, 40)}
+		cnt := int64(0)
+		for _, w := range wraps {
+			for _, nest := range nests {
+				for _, tg := range tags {
+					for _, l := range lens {
+						for _, tl := range tails {
+							b := append(append(append(append(append([]byte{}, w[0]...), nest...), tg), l...), tl...)
+							decode(b)
+							cnt++
+						}
+					}
+				}
+			}
+		}
+		n.Add(cnt)
+		r.Add("extreme_length_inputs", cnt)
+	}
 	r.Sample(map[string]any{"decoded_strings": "all byte strings of length <=3 and all strings of length <=" + fmt.Sprint(maxLen) + " over 24 structural bytes"})
 	// every single-byte substitution, truncation and duplication of valid encodings
 	var valid [][]byte
